@@ -736,7 +736,12 @@ func (w *World) exec(op *Op) (done bool) {
 			kc = nil // nil means "the default, bytes.Compare", for new and for existing names
 			w.ev["setcoll_nil_compare"]++
 		}
-		nc := h.st.SetCollection(name, kc)
+		var nc *g.Collection
+		// SetCollection has no error result and needs no file access; if it ever touches the
+		// file and that call fails, it must at least change nothing (C07, C12)
+		if !w.call("SetCollection", false, func() error { nc = h.st.SetCollection(name, kc); return nil }) {
+			return false
+		}
 		if nc == nil {
 			w.failf("setcollection-nil", "SetCollection(%q) returned nil", name)
 		}
